@@ -451,7 +451,9 @@ class SymNode(metaclass=NodeMeta):
                 c.assume(self.zsym == kid.zsym)
                 return
             elif op == "fpToIEEEBV":
-                kids = [self._kid(("fp", "FLOAT" if w == 32 else "DOUBLE"))]  # meaning opaque in the BV engine
+                kids = [self._kid(("fp", "FLOAT" if w == 32 else "DOUBLE"))]
+                # the node is A bit pattern of the float (NaN has many): a relation, as in SMT-LIB
+                c.assume(z3.fpBVToFP(self.den, zsort(kids[0].sort)) == kids[0].den)
             elif op in ("fpToSBV", "fpToUBV"):
                 fs = ["FLOAT", "DOUBLE"][c.choose([True, True], f"fps{self.uid}")]
                 kid = self._kid(("fp", fs))
@@ -527,11 +529,30 @@ class SymNode(metaclass=NodeMeta):
             c.assume(self.zsym == z3.Or(*[k.zsym for k in kids]))
             return
         if op == "fpToFP":
-            # only the 2-argument reinterpretation form is modelled structurally: (bv, sort)
+            from claripy.fp import FSORT_FLOAT, FSORT_DOUBLE, RM
             w = 32 if sort[1] == "FLOAT" else 64
-            kid = self._kid(("bv", w))
-            from claripy.fp import FSORT_FLOAT, FSORT_DOUBLE
-            self._args = (kid, FSORT_FLOAT if w == 32 else FSORT_DOUBLE)
+            fsort = FSORT_FLOAT if w == 32 else FSORT_DOUBLE
+            form = c.choose([True, True, True], f"fptofp-form{self.uid}")
+            if form == 0:
+                # (bv, sort): reinterpretation of a bit pattern
+                kid = self._kid(("bv", w))
+                self._args = (kid, fsort)
+                c.assume(self.den == z3.fpBVToFP(kid.den, zsort(sort)))
+            else:
+                rms = list(RM)
+                rm = rms[c.choose([True] * len(rms), f"rm{self.uid}")]
+                if form == 1:
+                    # (rm, fp, sort): conversion between formats with rounding
+                    fs = ["FLOAT", "DOUBLE"][c.choose([True, True], f"from-sort{self.uid}")]
+                    kid = self._kid(("fp", fs))
+                    c.assume(self.den == z3.fpFPToFP(z3_rm(rm), kid.den, zsort(sort)))
+                else:
+                    # (rm, bv, sort): signed integer to float with rounding
+                    ws = world().c.opts.get("fp_from_bv_widths") or [8, 64]
+                    wb = ws[c.choose([True] * len(ws), f"from-width{self.uid}")]
+                    kid = self._kid(("bv", wb))
+                    c.assume(self.den == z3.fpSignedToFP(z3_rm(rm), kid.den, zsort(sort)))
+                self._args = (rm, kid, fsort)
             c.assume(self.zsym == kid.zsym)
             return
         kid = self._kid(sort)
@@ -621,7 +642,8 @@ class SymNode(metaclass=NodeMeta):
 
     @property
     def _uneliminatable_annotations(self):
-        return frozenset(a for a in self._annotations() if not (a.eliminatable or a.relocatable))
+        # as in Base.__new__: the node's own ones plus everything accumulated from its sub-expressions (ghost child_unelim)
+        return frozenset(a for a in self._annotations() if not (a.eliminatable or a.relocatable)) | frozenset(getattr(self.root(), "child_unelim", ()))
 
     @property
     def depth(self):
@@ -657,6 +679,8 @@ class SymNode(metaclass=NodeMeta):
         r = new_node(r0.sort, label="ann", den=r0.den)
         r._op, r._args, r._excl = r0._op, r0._args, set(r0._excl)
         r._annos = annos
+        if hasattr(r0, "child_unelim"):
+            r.child_unelim = set(r0.child_unelim)
         cur().assume(r.zsym == r0.zsym)
         r.ghost_from = ("annotate", (r0,))
         return r
@@ -827,6 +851,12 @@ class SymStrN(SymNode):
         return mk("__ne__", self, o)
 
     __hash__ = SymNode.__hash__
+
+
+def z3_rm(rm):
+    """claripy.fp.RM member -> z3 rounding mode"""
+    return {"RM_NearestTiesEven": z3.RNE(), "RM_NearestTiesAwayFromZero": z3.RNA(), "RM_TowardsZero": z3.RTZ(),
+            "RM_TowardsPositiveInf": z3.RTP(), "RM_TowardsNegativeInf": z3.RTN()}[rm.name]
 
 
 class OpaqueRM:
